@@ -20,7 +20,17 @@ A. *Scope/assignment histories* (model checking).  Explicit-state BFS (``explore
      H  ``Block.setHeight`` (assembly axial bounds, z-parameters of the sibling block);
      Q  cache-filling queries (areas, volumes, masses, material densities) - no assignment;
      S  an array parameter of the keep-set changes *shape*;
-     L  a linked component dimension is replaced by a number.
+     L  a linked component dimension is replaced by a number;
+     W  raw dimension assignments ``p.od = v`` (no cache is invalidated); CC ``clearCache`` of every
+        composite and material (scopes are entered with cold as well as warm caches);
+     F  ``makeParametersReadOnly`` - possibly while scopes are open; from then on every operation,
+        ``enter`` and ``exit`` included, must raise or return with every value of the reactor unchanged.
+   Two cores: the hex third core and a quarter Cartesian core whose grid has a non-zero offset (and
+   whose blocks hold the *core* grid as their own spatialGrid: grids are modelled by identity - a
+   scope restores every grid object held beneath it, for every holder).  G uses every public mutator
+   of the arrays a grid back-up refers to (changePitch: unit steps and offset; the offset setter;
+   H the axial bounds); grid ``reduce()`` (pitch, bounds, offset) and the global coordinates of every
+   object are part of the raw observation.
    Reference model: a stack of raw observations (every parameter value, own grid, locator,
    serial number, dimension links, material class) taken at each ``enter``.  Oracles:
      * ``enter`` changes nothing observable;
@@ -135,7 +145,12 @@ def _spec(name):
     if name == "r2":  # two assemblies (one of each design) x two blocks, pin grid
         return build.hex_spec(rings=2, pins=True, cells=build.third_core_cells(2)[:2])
     if name == "cq":  # quarter Cartesian core, axes between the cells: the core grid has a non-zero offset
-        return build.cart_spec(n=2, quarter=True, through_center=False)
+        sp = build.cart_spec(n=2, quarter=True, through_center=False)
+        cont = sp["grids"]["core"]["contents"]
+        ic = sorted(k for k, v in cont.items() if v == "IC")[:1]
+        oc = sorted(k for k, v in cont.items() if v == "OC")[:1]
+        sp["grids"]["core"]["contents"] = {k: cont[k] for k in ic + oc}  # two assemblies are enough
+        return sp
     if name == "r2s":
         return build.hex_spec(rings=2, pins=True, sfp_contents={(0, 0): "IC"})
     if name == "r3s":
@@ -1190,7 +1205,7 @@ def _quick_family():
 
 
 # scenarios of the quick family explored two levels deeper in the thorough tier (the others one level)
-_DEEPEST = (0, 1, 3, 9, 13, 14, 16, 17)
+_DEEPEST = (0, 1, 3, 9, 13, 14)
 
 
 def scenarios(ctx):
@@ -1233,7 +1248,8 @@ def scenarios(ctx):
             sc(spec, [[a, 0], [c, 0]], ["W", "CC", "Q"], wide)
         for a, c in (("R", "B"), ("B", "C4"), ("K", "C4"), ("A", "C")):
             sc(spec, [[a, 1], [c, 0]], ["P", "F"], wide)
-            sc(spec, [[a, 0], [c, 2]], ["D", "G", "F"], wide)
+            if spec == "r2":
+                sc(spec, [[a, 0], [c, 2]], ["D", "G", "F"], wide)
     for tri in (("R", "A", "B"), ("K", "B", "C"), ("B", "B", "B"), ("C", "B", "R")):
         for ks in ((0, 0, 0), (1, 2, 0)):
             sc("r2", [[o, k] for o, k in zip(tri, ks)], ["P", "G"], wide)
